@@ -96,6 +96,7 @@ def plan(tier, seed):
     pairs += G.ionic_balanced(rng, 20 if q else 200) + G.marker_collisions(rng, 30 if q else 300)
     pairs += G.h2_on_reactant_side(rng, 40 if q else 400)
     pairs += G.multi_additions(rng, 120 if q else 1500)
+    pairs += G.completion_prefix_collisions(rng, 40 if q else 400)
     pairs += G.with_spectator_copy(rng, rng.sample(pairs, 150 if q else 1500))
     pairs += [(t, rx) for t, rx in G.balanced_corpus()[: (60 if q else 1500)]]
     rng.shuffle(pairs)
